@@ -52,7 +52,20 @@ func runCheck(id, tier string, only int) int {
 	seed := int64(envInt("VERIF_SEED", 1))
 	start := time.Now()
 	if p, ok := inprocProps[id]; ok {
-		res := runInproc(p, tier, seed, scratchDir(), only)
+		var res runResult
+		if only < pipeIdxBase {
+			res = runInproc(p, tier, seed, scratchDir(), only)
+		}
+		if leg, ok := pipelineLegs[id]; ok && (only < 0 || only >= pipeIdxBase) {
+			o2 := only
+			if o2 >= pipeIdxBase {
+				o2 -= pipeIdxBase
+			}
+			for _, o := range leg(tier, seed, o2) {
+				o.Idx += pipeIdxBase
+				res.outcomes = append(res.outcomes, o)
+			}
+		}
 		rep := &Report{Prop: id, Tier: tier, Seed: seed, Outcomes: res.outcomes, Rule: p.Rule(),
 			Assumptions: p.Assumptions(), MinNontrivial: p.MinNontrivial(tier), DiedIsViolation: p.DiedIsViolation(), Start: start,
 			Extra: map[string]interface{}{"worker_restarts": res.restarts}}
